@@ -372,6 +372,43 @@ def listener(check, P):
     return n
 
 
+STRIP_ORACLE = [
+    # job line -> what must remain after comment stripping and .strip()  (RS274: '(...)' inline comments, ';' to end of line)
+    ("G28", "G28"),
+    ("G1 X10 Y0 E1 ; perimeter", "G1 X10 Y0 E1"),
+    ("G28 (all axes)", "G28"),
+    ("(op 1: home) G28 (all axes)", "G28"),
+    ("G1 X0 (left edge) Y10 E3 (extruding)", "G1 X0  Y10 E3"),
+    ("; only a comment", ""),
+    ("(only a comment)", ""),
+    ("M117 hello world", "M117 hello world"),
+]
+
+
+def comment_stripping(check, P):
+    """R6: the sender strips comments, and only comments, from a job line (evaluation of the *constant* pattern)."""
+    import re
+    b = P.resolve_name("gscrib.printrun.gcoder", "gcode_strip_comment_exp")
+    pat = None
+    if b and b[0] == "var" and isinstance(b[1], ast.Call) and b[1].args and isinstance(b[1].args[0], ast.Constant):
+        pat = b[1].args[0].value
+    if not isinstance(pat, str):
+        raise AnalysisError("C15.R6: gcode_strip_comment_exp is not re.compile(<string literal>) any more")
+    try:
+        rx = re.compile(pat)
+    except re.error as e:
+        check.violation("R6", "strip:pattern-invalid", f"gcode_strip_comment_exp {pat!r} is not a valid pattern: {e}", [])
+        return 1
+    for line, want in STRIP_ORACLE:
+        got = rx.sub("", line).strip()
+        if got == want:
+            check.ok("R6", f"{line!r} -> {want!r}")
+        else:
+            check.violation("R6", f"strip:{want or 'comment-only'}", f"comment stripping turns the job line {line!r} into {got!r}; the firmware must receive {want!r} "
+                            f"(pattern {pat!r})", ["gscrib/printrun/gcoder.py: gcode_strip_comment_exp", "used by printcore._sendnext"])
+    return len(STRIP_ORACLE)
+
+
 def job_indexing(check, P):
     """R5: the i-th entry of (layer_idxs, line_idxs) locates the i-th job line in all_layers, wherever lines are stored."""
     from ..interp import Interp, Frame
@@ -479,7 +516,8 @@ def run(check, repo, tier):
     check.rule("R5", "job indexing: wherever the parser stores job lines, the i-th (layer, line) index pair locates the i-th line of the job")
     check.rule("R4", "listener: ok sets clear; resend assigns resendfrom from the first integer token, then clear")
     P = Program(repo)
-    n = framing(check, P) + numbering(check, P) + listener(check, P) + job_indexing(check, P)
+    check.rule("R6", "comment stripping before transmission removes '(...)' and ';...' comments and nothing else (constant pattern evaluated on an oracle table of job lines)")
+    n = framing(check, P) + numbering(check, P) + listener(check, P) + job_indexing(check, P) + comment_stripping(check, P)
     check.analysed = {"program": P.stats(), "abstract_paths": n, "functions": ["printcore._send", "_checksum", "_sendnext", "startprint", "_reset_line_numbers", "_listen",
                                                                                "GCode._preprocess.append_lines", "GCode.append"]}
     check.sample({"function": "printcore._send", "written": "N<lineno> <command>*<reduce(xor, map(ord, 'N<lineno> <command>'))>\\n", "stored_first": "sentlines[lineno]"})
